@@ -177,6 +177,36 @@ Proof.
 Qed.
 Print Assumptions C08_keep_failed_fullsync_char.
 
+(** The sink is resolved by NAME at every run: while the sink dataset does not exist a run
+    (any variant, any source shape, incremental or fullsync) writes nothing and moves no token
+    forward - it never "succeeds" into a dataset object kept from an earlier run. *)
+Theorem C08_no_sink_no_progress : forall v st r st' o,
+  r_flt r = FNoSink -> length (st_tok st) = length (st_srcs st) -> 1 <= length (st_srcs st) ->
+  run_job v st r = (st', o) ->
+  st_sink st' = st_sink st /\ st_srcs st' = st_srcs st /\ length (st_tok st') = length (st_tok st)
+  /\ forall k, asincr (nth k (st_tok st') None) <= asincr (nth k (st_tok st) None).
+Proof. exact run_nosink. Qed.
+Print Assumptions C08_no_sink_no_progress.
+
+(** A run whose sink rejects an entity keeps the token behind it, whatever onError handlers
+    other than log the trigger carries (reQueue is inert, reRun only schedules another run):
+    the run does not even look at the handlers, and token safety holds with [FSinkReject]. *)
+Theorem C08_rejected_entity_stays_ahead : forall owner n fs dm st r st' o x,
+  good owner n st -> wf_op owner n (ORun r) -> r_flt r = FSinkReject x ->
+  fs = FsReset \/ r_full r = false ->
+  run_job (mkVar EqFull fs dm) st r = (st', o) -> good owner n st'.
+Proof.
+  intros owner n fs dm st r st' o x Hg Hwf _ Hc H.
+  apply (run_safe owner n (mkVar EqFull fs dm) eq_refl st r st' o Hg Hwf H).
+  destruct Hc; auto.
+Qed.
+Print Assumptions C08_rejected_entity_stays_ahead.
+
+Theorem C08_handlers_inert : forall v st full union b los flt hs hs',
+  run_job v st (mkR full union b los flt hs) = run_job v st (mkR full union b los flt hs').
+Proof. reflexivity. Qed.
+Print Assumptions C08_handlers_inert.
+
 (** tie to the correspondence check: on a well-formed case, agreement of the implementation
     with the repaired model implies the WHOLE executable spec (token safety after every run,
     convergence after every run that ends OK, incremental re-run changes nothing, the sink only
@@ -191,11 +221,11 @@ Definition h_demo : list op :=
   [ OWrite 0 [mkV 1 1 0 false; mkV 2 2 0 false; mkV 1 3 0 false];
     OWrite 1 [mkV 11 1 0 false; mkV 12 1 0 true];
     OSinkWrite [mkV 100 1 1 false];
-    ORun (mkR false true 2 [false; true] (FDieBefore 1));
-    ORun (mkR false true 2 [false; true] (FSinkFail 0));
-    ORun (mkR true true 1 [false; true] (FKill 2));
-    ORun (mkR false true 2 [false; true] FNone);
-    ORun (mkR true true 2 [false; true] FNone) ].
+    ORun (mkR false true 2 [false; true] (FDieBefore 1) []);
+    ORun (mkR false true 2 [false; true] (FSinkFail 0) []);
+    ORun (mkR true true 1 [false; true] (FKill 2) []);
+    ORun (mkR false true 2 [false; true] FNone []);
+    ORun (mkR true true 2 [false; true] FNone []) ].
 Definition own_demo (i : Z) : nat := if (i <? 10)%Z then 0 else if (i <? 100)%Z then 1 else 2.
 
 Example C08_nonvacuous_1 :
@@ -218,7 +248,7 @@ Proof. vm_compute. auto. Qed.
 
 (** the hypotheses of C08_agree_implies_spec are met by a concrete case *)
 Definition c_demo : tcase :=
-  mkTC 1 false [false] 1
+  mkTC 1 false [false] 1 [HReQueue; HReRun]
     [ TW 0 [mkV 1 1 0 false; mkV 1 2 0 false];
       TRun (mkTR false (FDieBefore 0) 2%N [(-1)%Z] [mkV 1 1 0 false] 1 [2%Z]);
       TRun (mkTR false FNone 0%N [2%Z] [mkV 1 2 0 false] 2 [2%Z]);
@@ -227,8 +257,11 @@ Definition c_demo : tcase :=
 Example C08_nonvacuous_3 : wf_case c_demo /\ agree v_fixed c_demo = true /\ spec_ok c_demo = true.
 Proof.
   split; [|split; vm_compute; reflexivity].
-  exists (fun _ => 0). unfold c_demo. cbn. repeat constructor; cbn; try lia; try discriminate;
-    intros x Hx; repeat (destruct Hx as [<-|Hx]; [reflexivity|]); destruct Hx.
+  exists (fun _ => 0). unfold c_demo. cbn. repeat apply Forall_cons; try apply Forall_nil; cbn.
+  - split; [lia|]. intros x Hx. repeat (destruct Hx as [<-|Hx]; [reflexivity|]). destruct Hx.
+  - repeat split; try lia. intros [H|[H|[]]]; discriminate.
+  - repeat split; try lia. intros [H|[H|[]]]; discriminate.
+  - repeat split; try lia. intros [H|[H|[]]]; discriminate.
 Qed.
 (** ... and those of C08_keep_failed_fullsync_char by the state reached in h_fskeep before its
     failed fullsync (the characterisation then says: unsafe, entity 1 is behind) *)
